@@ -14,35 +14,66 @@ fn rsd(b: f64, m: u64) -> f64 {
     (((b + 1.) / (b - 1.) * b.ln() - 1.) / m as f64).sqrt()
 }
 
-/// one trial: relative error of the estimate for n fresh items (with optional repeats)
-fn rel_error<const U16: bool>(params: SetSketchParams, n: usize, repeats: bool, rng: &mut Rng) -> (f64, f64) {
-    let ids = fresh_ids(rng, n, 0);
-    let est;
-    let adv;
+/// how the sketch of the n items is built
+#[derive(Clone, Copy, Debug, PartialEq)]
+enum Build {
+    Stream,
+    /// every item streamed, then half of them again
+    Repeats,
+    /// items split over three sketchers which are merged
+    Merged,
+    /// one sketcher used for an unrelated larger set first, then reinit
+    Reused,
+}
+
+macro_rules! rel_error_body {
+    ($t:ty, $params:expr, $n:expr, $build:expr, $rng:expr) => {{
+        let ids = fresh_ids($rng, $n, 0);
+        let mut s = SetSketcher::<$t, u64, FnvHasher>::new($params, Default::default());
+        match $build {
+            Build::Stream => s.sketch_slice(&ids).unwrap(),
+            Build::Repeats => {
+                s.sketch_slice(&ids).unwrap();
+                for _ in 0..($n / 2 + 1) {
+                    s.sketch(&ids[$rng.random_range(0..$n)]).unwrap();
+                }
+            }
+            Build::Merged => {
+                let c1 = $n / 3;
+                let c2 = 2 * $n / 3;
+                let mut s2 = SetSketcher::<$t, u64, FnvHasher>::new($params, Default::default());
+                let mut s3 = SetSketcher::<$t, u64, FnvHasher>::new($params, Default::default());
+                for x in &ids[..c1] {
+                    s.sketch(x).unwrap();
+                }
+                for x in &ids[c1..c2] {
+                    s2.sketch(x).unwrap();
+                }
+                for x in &ids[c2..] {
+                    s3.sketch(x).unwrap();
+                }
+                s2.merge(&s3).unwrap();
+                s.merge(&s2).unwrap();
+            }
+            Build::Reused => {
+                let m = $params.get_m() as usize;
+                let junk = fresh_ids($rng, (30 * m).min(20_000) + 5, 0);
+                s.sketch_slice(&junk).unwrap();
+                s.reinit();
+                s.sketch_slice(&ids).unwrap();
+            }
+        }
+        let (c, r) = s.get_cardinal_stats();
+        (c / $n as f64 - 1., r)
+    }};
+}
+
+fn rel_error<const U16: bool>(params: SetSketchParams, n: usize, build: Build, rng: &mut Rng) -> (f64, f64) {
     if U16 {
-        let mut s = SetSketcher::<u16, u64, FnvHasher>::new(params, Default::default());
-        s.sketch_slice(&ids).unwrap();
-        if repeats {
-            for _ in 0..(n / 2 + 1) {
-                s.sketch(&ids[rng.random_range(0..n)]).unwrap();
-            }
-        }
-        let (c, r) = s.get_cardinal_stats();
-        est = c;
-        adv = r;
+        rel_error_body!(u16, params, n, build, rng)
     } else {
-        let mut s = SetSketcher::<u32, u64, FnvHasher>::new(params, Default::default());
-        s.sketch_slice(&ids).unwrap();
-        if repeats {
-            for _ in 0..(n / 2 + 1) {
-                s.sketch(&ids[rng.random_range(0..n)]).unwrap();
-            }
-        }
-        let (c, r) = s.get_cardinal_stats();
-        est = c;
-        adv = r;
+        rel_error_body!(u32, params, n, build, rng)
     }
-    (est / n as f64 - 1., adv)
 }
 
 pub fn run(rep: &mut Report) {
@@ -51,7 +82,7 @@ pub fn run(rep: &mut Report) {
     // ---------------- S part
     let t1: u64 = rep.tier.pick(3000, 30_000);
     let bs = [1.001, 1.2, 1.5, 2.0];
-    let ms = [64u64, 256, 4096];
+    let ms = [64u64, 100, 256, 4096];
     let ns: Vec<usize> = rep.tier.pick(vec![1, 10, 1000, 100_000], vec![1, 10, 1000, 100_000, 1_000_000, 4_000_000]);
     let mut ci = 0u64;
     let mut crng = rng_from(subseed(rep.seed, "C06/cells", &[]));
@@ -60,16 +91,26 @@ pub fn run(rep: &mut Report) {
             for &n in &ns {
                 ci += 1;
                 let u16reg = ci % 2 == 0;
-                let repeats = ci % 3 == 0;
+                let hsel = mix(&[ci, rep.seed, 0xC06]);
+                let build = match hsel % 6 {
+                    0 | 1 => Build::Stream,
+                    2 => Build::Repeats,
+                    3 => Build::Merged,
+                    _ => if m <= 256 { Build::Reused } else { Build::Merged },
+                };
+                let build = if n < 3 && build == Build::Merged { Build::Stream } else { build };
                 // quick: a seeded selection of the product, cost-bounded
                 // cost model of one trial in register visits: the first ~5m items visit all m registers, later ones are pruned
-                let cost = (n.min(5 * m as usize) as f64) * m as f64 + 30. * n as f64;
+                let mut cost = (n.min(5 * m as usize) as f64) * m as f64 + 30. * n as f64;
+                if build == Build::Reused {
+                    cost += 5. * (m as f64) * m as f64 + 30. * 20_000.;
+                }
                 let budget: f64 = rep.tier.pick(2.5e9, 1e11);
                 let tt = ((budget / cost) as u64).clamp(200, t1);
                 if rep.tier == Tier::Quick && n >= 100_000 && crng.random_range(0..3) != 0 {
                     continue;
                 }
-                let cell = format!("S/b={}/m={}/{}/n={}{}", b, m, if u16reg { "u16" } else { "u32" }, n, if repeats { "/repeats" } else { "" });
+                let cell = format!("S/b={}/m={}/{}/n={}/{:?}", b, m, if u16reg { "u16" } else { "u32" }, n, build);
                 if !rep.want(&cell) {
                     continue;
                 }
@@ -91,7 +132,7 @@ pub fn run(rep: &mut Report) {
                 let nt = targets.len();
                 let seed = subseed(rep.seed, "C06/S", &[ci]);
                 let (rs, trials) = staged(seed, tt, 3, &targets, |rng, out| {
-                    let (e, adv) = if u16reg { rel_error::<true>(params, n, repeats, rng) } else { rel_error::<false>(params, n, repeats, rng) };
+                    let (e, adv) = if u16reg { rel_error::<true>(params, n, build, rng) } else { rel_error::<false>(params, n, build, rng) };
                     out[0] = e;
                     out[1] = e;
                     out[2] = adv;
@@ -105,7 +146,7 @@ pub fn run(rep: &mut Report) {
                 if (adv - r).abs() > 1e-12 * r.max(1.) {
                     rep.violation("C06/advertised-rsd", &cell, format!("get_cardinal_stats reports rsd {} but ((b+1)/(b-1) ln b - 1)/m gives {}", adv, r), json!({"b": b, "m": m}));
                 }
-                let case = json!({"b": b, "m": m, "a": a, "q": q, "registers": if u16reg { "u16" } else { "u32" }, "n": n, "repeats": repeats, "advertised_rsd": r, "bias_allowance": 2. * r * r});
+                let case = json!({"b": b, "m": m, "a": a, "q": q, "registers": if u16reg { "u16" } else { "u32" }, "n": n, "build": format!("{:?}", build), "advertised_rsd": r, "bias_allowance": 2. * r * r});
                 if ci % 11 == 1 {
                     rep.sample(case.clone());
                 }
